@@ -7,6 +7,7 @@ import (
 	"go/token"
 	"go/types"
 	"strings"
+	"unsafe"
 
 	"golang.org/x/tools/go/ssa"
 )
@@ -358,6 +359,11 @@ func atomicTypedMethod(name string) externalFn {
 		return nil
 	}
 	meth := name[i+2:]
+	// go/ssa names the methods of an instantiated generic type "(*sync/atomic.Pointer[T]).Load[T]"
+	if j := strings.IndexByte(meth, '['); j >= 0 {
+		meth = meth[:j]
+	}
+	isPtr := strings.HasPrefix(name, "(*sync/atomic.Pointer[")
 	cell := func(args []value) *value {
 		p := args[0].(*value)
 		if p == nil {
@@ -379,6 +385,9 @@ func atomicTypedMethod(name string) externalFn {
 			v := *cell(args)
 			if isBool {
 				return truthy(v)
+			}
+			if up, ok := v.(unsafe.Pointer); ok && isPtr && up == nil {
+				return (*value)(nil) // zero atomic.Pointer[T]: the nil *T
 			}
 			return v
 		}
